@@ -40,7 +40,9 @@ def parseEntries (s : String) : Option (List Entry) :=
 def parseBody (s : String) : Option BodySpec :=
   match s with
   | "v" => some .val | "n" => some .none | "skip" => some (.fault .skip) | "content" => some (.fault .content)
-  | "crash" => some (.fault (.crash 1)) | "first" => some .first | _ => none
+  | "crash" => some (.fault (.crash 1)) | "first" => some .first
+  | "calledproc" => some (.fault .calledProc) | "timeout" => some (.fault .timeout) | "blacklisted" => some (.fault .blacklisted)
+  | _ => none
 
 /-- outcomes: `cid=v,cid=skip` -/
 def parseOutcomes (s : String) : Option (List (Comp × BodySpec)) :=
